@@ -133,7 +133,7 @@ def check_c06(case, impl):
             if b in freed:
                 return "data access %s on block %d after it was freed" % (e, b)
         elif k in "+-":
-            d = int(e)
+            d = int(e.split("~")[0])          # a weaker ordering than AcqRel is marked ~Ordering: C07's business
             if not torn and rc + d < 0:
                 return "reference count below zero before teardown"
             if not torn and rc == 1 and d == -1:
